@@ -66,7 +66,8 @@ func ValidateMetaPkg(m Meta) error {
 }
 
 func ValidateMetaContainerType(m Meta) error {
-	if m.ContainerType != nil && !regexpMetaContainerType.MatchString(*m.ContainerType) {
+	// "rootGontainer" is the name of the result of the generated constructor, a type of that name would be shadowed by it
+	if m.ContainerType != nil && (!regexpMetaContainerType.MatchString(*m.ContainerType) || *m.ContainerType == "rootGontainer") {
 		return fmt.Errorf(
 			"container_type: invalid %+q",
 			*m.ContainerType,
@@ -76,7 +77,9 @@ func ValidateMetaContainerType(m Meta) error {
 }
 
 func ValidateMetaContainerConstructor(m Meta) error {
-	if m.ContainerConstructor != nil && !regexpMetaContainerConstructor.MatchString(*m.ContainerConstructor) {
+	// Go reserves the function names "init" and "main", they cannot have results
+	if m.ContainerConstructor != nil && (!regexpMetaContainerConstructor.MatchString(*m.ContainerConstructor) ||
+		*m.ContainerConstructor == "init" || *m.ContainerConstructor == "main") {
 		return fmt.Errorf(
 			"container_constructor: invalid %+q",
 			*m.ContainerConstructor,
